@@ -310,7 +310,7 @@ theorem zipRemove_sim (a1 a2 : Arr) (it : ArrIter) (z : ZipCursor) (m : Mem) (hi
   unfold zipRemove ZipCursor.remove
   by_cases hd : z.done1 = []
   · have hi0 : it.index = 0 := by rw [← s3, hd]; rfl
-    have w1 := wdec_big a1.size (Nat.le_trans hi1.1 hi1.2.2.2)
+    have w1 := wdec_big a1.size (Nat.le_trans hi1.1 (Nat.le_trans hi1.2.2.2 (Nat.div_le_self _ _)))
     have : (decide (wdec it.index ≥ a1.size) || decide (wdec it.index ≥ a2.size)) = true := by
       rw [hi0]; simp; left; omega
     simp only [this, if_true, hd, true_or]
@@ -366,7 +366,7 @@ theorem zipReplace_sim (a1 a2 : Arr) (it : ArrIter) (z : ZipCursor) (x y : Nat) 
   unfold zipReplace ZipCursor.replace
   by_cases hd : z.done1 = []
   · have hi0 : it.index = 0 := by rw [← s3, hd]; rfl
-    have w1 := wdec_big a1.size (Nat.le_trans hi1.1 hi1.2.2.2)
+    have w1 := wdec_big a1.size (Nat.le_trans hi1.1 (Nat.le_trans hi1.2.2.2 (Nat.div_le_self _ _)))
     have : (decide (wdec it.index ≥ a1.size) || decide (wdec it.index ≥ a2.size)) = true := by
       rw [hi0]; simp; left; omega
     simp only [this, if_true, hd, true_or]
@@ -410,21 +410,21 @@ theorem zipIndex_sim (a1 a2 : Arr) (it : ArrIter) (z : ZipCursor) (hs : ZSim a1 
 /-- physical frame of a successful insertion without the allocator conjunct of `GrowFrame` -/
 def Grew (a a' : Arr) : Prop :=
   a'.size = a.size + 1 ∧ a'.size ≤ a'.capacity ∧ a'.capacity ≤ a'.buf.length ∧
-  (a'.capacity = a.capacity ∨ (a.size = a.capacity ∧ a'.capacity = a.newCapacity ∧ a.capacity < a.newCapacity)) ∧
+  (a'.capacity = a.capacity ∨ (a.size = a.capacity ∧ a'.capacity = a.newCapacity ∧ a.capacity < a.newCapacity ∧
+    a.newCapacity ≤ Gen.CC_MAX_ELEMENTS / 8)) ∧
   a'.grow = a.grow
 
 theorem GrowFrame.grew {a a' : Arr} {m : Mem} (g : GrowFrame a a' m) : Grew a a' := by
   obtain ⟨g1, g2, g3, g4, g5⟩ := g
   refine ⟨g1, g2, g3, ?_, g5⟩
-  rcases g4 with g4 | ⟨k1, k2, k3, _⟩
+  rcases g4 with g4 | ⟨k1, k2, k3, _, k5⟩
   · exact Or.inl g4
-  · exact Or.inr ⟨k1, k2, k3⟩
+  · exact Or.inr ⟨k1, k2, k3, k5⟩
 
-theorem Grew.inv {a a' : Arr} (h : a.Inv) (g : Grew a a') (hg : a.grow a.capacity ≤ Gen.CC_MAX_ELEMENTS) : a'.Inv := by
+theorem Grew.inv {a a' : Arr} (h : a.Inv) (g : Grew a a') : a'.Inv := by
   obtain ⟨h1, h2, h3, h4⟩ := h
   obtain ⟨g1, g2, g3, g4, g5⟩ := g
-  have := newCapacity_le a h4 hg
-  refine ⟨g2, g3, ?_, ?_⟩ <;> rcases g4 with g4 | ⟨_, g4, g6⟩ <;> omega
+  refine ⟨g2, g3, ?_, ?_⟩ <;> rcases g4 with g4 | ⟨_, g4, g6, g7⟩ <;> omega
 
 /-- `add_at` into an array that has room needs no allocation and cannot fail for `i ≤ size` -/
 theorem addAt_room (a : Arr) (x i : Nat) (m : Mem) (h1 : a.size < a.capacity) (h2 : a.capacity ≤ a.buf.length)
@@ -460,7 +460,8 @@ theorem ensureRoom_spec (a : Arr) (m : Mem) (hinv : a.Inv) (hlive : 0 < m.live) 
         (ensureRoom a m).2.1.capacity ≤ (ensureRoom a m).2.1.buf.length ∧
         (ensureRoom a m).2.1.grow = a.grow ∧
         ((ensureRoom a m).2.1.capacity = a.capacity ∨
-          (a.size = a.capacity ∧ (ensureRoom a m).2.1.capacity = a.newCapacity ∧ a.capacity < a.newCapacity))) ∨
+          (a.size = a.capacity ∧ (ensureRoom a m).2.1.capacity = a.newCapacity ∧ a.capacity < a.newCapacity ∧
+            a.newCapacity ≤ Gen.CC_MAX_ELEMENTS / 8))) ∨
      ((ensureRoom a m).1 ≠ .ok ∧ (ensureRoom a m).2.1 = a)) ∧
     (ensureRoom a m).2.2.live = m.live ∧ (ensureRoom a m).2.2.fault = m.fault := by
   have hinv' := hinv
@@ -470,7 +471,7 @@ theorem ensureRoom_spec (a : Arr) (m : Mem) (hinv : a.Inv) (hlive : 0 < m.live) 
     rw [he]
     by_cases hok : (a.expandCapacity m).1 = .ok
     · obtain ⟨e1, e2, e3, e4, e5, e6, e7, e8, e9, e10⟩ := expandCapacity_ok a m hinv' hlive hok
-      exact ⟨Or.inl ⟨hok, e1, by rw [e2, hf], by omega, by omega, e3, Or.inr ⟨hf, e4, e6⟩⟩, e9, e10⟩
+      exact ⟨Or.inl ⟨hok, e1, by rw [e2, hf], by omega, by omega, e3, Or.inr ⟨hf, e4, e6, e7⟩⟩, e9, e10⟩
     · obtain ⟨e1, e2, e3, e4⟩ := expandCapacity_err a m hok
       exact ⟨Or.inr ⟨hok, e1⟩, e3, e4⟩
   · have he : ensureRoom a m = (.ok, a, m) := by unfold ensureRoom; rw [if_neg hf]
